@@ -280,10 +280,16 @@ def impl_do(c, fam: Family, o):
         return ["other", type(e).__name__]
 
 
+ABNORMAL = {"n": 0}      # observations that are neither value, KeyError, bool nor unit (e.g. RecursionError)
+ABNORMAL_LIMIT = 300     # such observations are slow (1000 frames each) and all mismatch anyway: stop generating
+
+
 def impl_run(fam: Family, ops):
     from typelib import ctx
     c = ctx.TypeContext()
-    return [impl_do(c, fam, o) for o in ops]
+    out = [impl_do(c, fam, o) for o in ops]
+    ABNORMAL["n"] += sum(1 for g in out if g[0] in ("recursion", "other"))
+    return out
 
 
 class RefCtx:
@@ -436,6 +442,9 @@ def enum_tree(fam: Family, keys, kinds, depth, stats):
     def rec(path, ref: RefCtx, d):
         kids = []
         for kind, k in alphabet:
+            if ABNORMAL["n"] > ABNORMAL_LIMIT:
+                stats["truncated"] = True
+                break
             o = mk_op(kind, k, d)
             if not ref.allowed(o):
                 continue
@@ -592,6 +601,8 @@ def gather(run: lib.Run):
         roots = enum_tree(fam, keys, kinds, depth, st)
         trees.append({"name": name, "keys": keys, "kinds": kinds, "depth": depth, "roots": roots, "nodes": st["nodes"]})
         run.log(f"tree {name}: depth {depth}, {st['nodes']} nodes")
+        if st.get("truncated"):
+            run.notes.append(f"tree {name} truncated: more than {ABNORMAL_LIMIT} abnormal observations (RecursionError/other)")
     nrand = run.budget(1500, 20000)
     seqs = []
     for fn, c in corpus_cases():        # corpus first
@@ -603,6 +614,9 @@ def gather(run: lib.Run):
             continue
         seqs.append((c["ops"], impl_run(fam, c["ops"])))
     for i in range(nrand):
+        if ABNORMAL["n"] > 3 * ABNORMAL_LIMIT:
+            run.notes.append("random sequences truncated: too many abnormal observations")
+            break
         impl.clear_caches()
         ops = random_seq(fam, rng, 40 if i % 4 else 12)
         seqs.append((ops, impl_run(fam, ops)))
@@ -801,6 +815,8 @@ def search(run: lib.Run, broken):
     rng = random.Random(run.seed + 2)
     npure = run.budget(400, 4000) * (3 if broken else 1)
     for i in range(npure):
+        if ABNORMAL["n"] > 6 * ABNORMAL_LIMIT:
+            break
         if i % 50 == 0:
             impl.clear_caches()
         ops = random_seq(fam, rng, 30)
